@@ -133,9 +133,11 @@ enum Kind {
     Exec,
     CommandExec,
     SpecialColon,
+    /// regular built-in whose arguments undergo pathname expansion (directory scans open descriptors)
+    RegularGlob,
 }
 
-const KINDS: [Kind; 11] = [
+const KINDS: [Kind; 12] = [
     Kind::Regular,
     Kind::SpecialEval,
     Kind::Function,
@@ -147,12 +149,14 @@ const KINDS: [Kind; 11] = [
     Kind::Exec,
     Kind::CommandExec,
     Kind::SpecialColon,
+    Kind::RegularGlob,
 ];
 
 impl Kind {
     fn text(self, redirs: &str) -> String {
         match self {
             Kind::Regular => format!("fds in {redirs}"),
+            Kind::RegularGlob => format!("fds in /tmp/*/? * {redirs}"),
             Kind::SpecialEval => format!("eval 'fds in' {redirs}"),
             Kind::Function => format!("f {redirs}"),
             Kind::Group => format!("{{ fds in; }} {redirs}"),
@@ -168,7 +172,7 @@ impl Kind {
     fn observes_inside(self) -> bool {
         matches!(
             self,
-            Kind::Regular | Kind::SpecialEval | Kind::Function | Kind::Group | Kind::Subshell | Kind::External
+            Kind::Regular | Kind::RegularGlob | Kind::SpecialEval | Kind::Function | Kind::Group | Kind::Subshell | Kind::External
         )
     }
     fn is_special(self) -> bool {
